@@ -262,6 +262,19 @@ def feimage_clones(d):
     return [i for i, n in seen.items() if n > 1]
 
 
+def unresolved_obb(sk):
+    """a gradient / pattern written without userSpaceOnUse units: every definition of a usvg tree is supposed to be resolved"""
+    found = []
+
+    def visit(e, parent):
+        if e[0] in ('linearGradient', 'radialGradient') and e[1].get('gradientUnits') != 'userSpaceOnUse':
+            found.append(e[1].get('id'))
+        if e[0] == 'pattern' and e[1].get('patternUnits') != 'userSpaceOnUse':
+            found.append(e[1].get('id'))
+    sk_walk(sk, visit)
+    return found
+
+
 def has_empty_definition(d):
     return any(not c['root']['children'] for c in d['clip_paths']) or any(not m['root']['children'] for m in d['masks'])
 
@@ -318,6 +331,10 @@ def classify(r, w):
             # several feImage sub-trees for one target (clones resolved against different boxes); only the first is
             # written, the definitions used by the others are written but no longer referenced
             cls = 'feimage-clone-merged'
+        elif b[:4] == a2[:4] and unresolved_obb(r['skeleton']):
+            # a paint server that is still in objectBoundingBox units is written (C04 shared-def-nested-obb, F25); the
+            # re-parse resolves it, per user, into clones
+            cls = 'unresolved-obb-def'
         elif empty_def and all(y <= x for x, y in zip(a2, b)):
             cls = 'empty-definition-dropped'
         elif set(prefix) & URL_BREAKERS and all(y <= x for x, y in zip(a2, b)):
